@@ -2,13 +2,15 @@ import OsacaVerif.Driver.Proto
 import OsacaVerif.Driver.C12
 import OsacaVerif.Driver.C01
 import OsacaVerif.Driver.DGraph
+import OsacaVerif.Driver.C18
 open OsacaVerif OsacaVerif.Proto
 
 /-- one handler per property module; the first that recognises the op answers -/
 def handlers : List (Req → Option String) := [
   Driver.C12.handle,
   Driver.C01.handle,
-  Driver.DGraph.handle
+  Driver.DGraph.handle,
+  Driver.C18.handle
 ]
 
 def dispatch (r : Req) : String :=
